@@ -19,54 +19,29 @@ Definition coding_callees_ok (ce : string -> list val -> res val) (k : nat) : Pr
   /\ (forall current, (1 <= k)%nat -> ce "obtain_formers" [VInt current; VInt (Z.of_nat k)] = Ret (VList (map VInt (obtain_formers current k))))
   /\ (forall acc, ce "obtain_vertices" [varr2 acc] = Ret (varr (Graph.obtain_vertices acc))).
 
-(* TARGET STATEMENTS
+(* TARGET STATEMENTS: connect_coding_graph_gen_ok and connect_coding_graph_gen_raise are proved at the end of this file exactly as
+   stated (for every threshold 1 <= t; the hypothesis 1 <= t is in fact not used), together with their restrictions to 2 <= t
+   (connect_coding_graph_gen_ok_t2 / _raise_t2, which do not need the callees obtain_formers / obtain_vertices).
 
    The Python returns (vertices, accessor).  For threshold 1 `vertices` is the array of retained vertex indices (obtain_vertices
    of the final accessor); for threshold >= 2 it is the vertex MASK of the last trimming round: the boolean array new_vertices
-   of the previous round -- or the ARGUMENT ITSELF when the first round already changes nothing.  State the result through a
-   function you define, e.g.
+   of the previous round -- or the ARGUMENT ITSELF (an integer array) when the first round already changes nothing: coding_result
+   below (tested with vm_compute against call_in coding_module on masks of order 1 and 2, thresholds 1..5, verbose true / false).
 
-Definition coding_result (k : nat) (mask : list Z) (t : Z) (V : list Z) (acc : accessor) : val := ... (VTuple [..; varr2 acc])
-
-   (read Graph.connect_coding_graph, trim_fuel, trim_round, threshold1_fuel, useful_step / useful_fix, cascade in Graph.v: they
-   mirror the Python loop by loop; GraphProofs.v / GenerateProofs.v have the facts about them: termination within the fuel the
-   model uses, shapes, legality).
-
-Theorem connect_coding_graph_gen_ok : forall ce fuel k mask t verbose V acc,
-  coding_callees_ok ce k -> (1 <= k)%nat -> Z.of_nat k < 400 -> length mask = Z.to_nat (pow4 k) ->
-  Forall (fun x => 0 <= x <= 1) mask -> 1 <= t ->
-  Graph.connect_coding_graph k mask t = Ok (V, acc) ->
-  (4 * length mask + 8 <= fuel)%nat ->
-  run_fun ce fuel connect_coding_graph_def [VInt (Z.of_nat k); v_mask_int mask; VInt t; VBool verbose]
-  = Ret (coding_result k mask t V acc).
-
-Theorem connect_coding_graph_gen_raise : forall ce fuel k mask t verbose e, (same hypotheses) ->
-  Graph.connect_coding_graph k mask t = Raise e ->
-  run_fun ce fuel connect_coding_graph_def [... same arguments ...] = Exn e.
-
-   Notes.  * Three kinds of `while True: ... break` loops (SWhileB / SBreak; exec_while_b, while_loop_b, loop_seq in
-   MiniPyHLemmas): the trimming rounds = trim_fuel (one model fuel unit per round, at most S (length mask) rounds); for
-   threshold 1 the outer loop = threshold1_fuel, the reachability loop = the model's useful fixed point, and
-   `while len(pairs) > 0` (a plain SWhile) = the cascade; choose the fuel hypothesis you can prove (every loop runs at most about
-   length mask + 1 resp. 4 * length mask rounds: the model's own fuels are the guide) and report it.
-   * `where(vertices != 0)[0]` = the marked vertices; `vertices[latter_indices]` indexes the mask array with the LIST
-   obtain_latters returns (the VList case of index_val); `sum(..) >= threshold`; the store into the boolean array new_vertices;
-   `changed = sum(vertices) - sum(new_vertices)`; `not changed`.  In the first round `vertices` is the int array of the
-   argument, afterwards a boolean array: state the loop invariant for a mask given as EITHER (as ValidGraphGenProofs.v in
-   /verif/coq/Generated does with its `connect_generic`, parametrised by the encoding of an entry).
-   * `sum(vertices) / len(vertices)` is a VRatio and `valid_rate > 0` its sign (ratio_ok needs 4^k < 2^1000: k < 400).
-   * the accessor construction is the loop of connect_valid_graph (= induced k m): ValidGraphGenProofs.v proves exactly this loop
-   over MiniPyG; you may copy and adapt its lemmas (inner_loop / outer_loop) to MiniPyH.
-   * threshold 1: `sum(accessor >= 0, axis=1) > 1` is cmp_top on a 2-D array, BNpSumAxis1, then `> 1`: the out-degree > 1 flags;
-   `useful.copy()` BCopy; `accessor[v][accessor[v] >= 0]` the live successors (boolean mask index); `useful[latter_indices]`
-   indexes with an integer array (empty when there is no successor: the empty-index case), `.any()` BAny;
-   `(reached == useful).all()` element-wise CEq of two boolean arrays then BAll; the conditional comprehension ECompIf;
-   `accessor[useless_vertex] = -1` fills the row; the comprehension of pairs over obtain_formers; `previous > current == 0` is
-   (EAnd (previous > current) (current == 0)); `accessor[former, latter % 4] = -1` TIndex2.
-   * print(..) statements are SSkip; monitor calls evaluate their arguments (all total).
-   This is a long proof: build it bottom-up (one lemma per loop, innermost first), keep the file compiling at all times, and
-   deliver in this order: (1) the trimming rounds, (2) thresholds >= 2 complete (_ok and _raise for t >= 2), (3) threshold 1.
-   If threshold 1 cannot be finished, state and prove the theorems for 2 <= t, leave the rest in the comment and say so.
+   Structure (bottom-up, one lemma per loop):
+   * trimming: trim_loop (the for loop over the marked vertices, for a mask encoded as an int OR a bool array: [enc]),
+     trim_fold (its result is Graph.trim_round), round_prefix / round_ok (one round of the `while True`), rounds_ok (the rounds
+     against Graph.trim_fuel: one unit of the model's fuel per round);
+   * accessor construction: inner_loop / outer_loop (adapted from ValidGraphGenProofs.v) = Graph.induced; prefix_ok (the function
+     up to there, any tail); tail_t2 / gen_t2 (thresholds other than 1);
+   * threshold 1: cascade_for_loop (= fold_left cascade_pair), cascade_while (= Graph.cascade; a plain SWhile: needs one more
+     iteration of fuel than the model for the final test), useless_loop (= remove_vertices), reach_for_loop (= useful_step),
+     reach_round / reach_while (= useful_fix), t1_pre / t1_mid / t1_post / t1_while (= threshold1_fuel), tail_t1 / gen_t1.
+     Every accessor of the repair satisfies [ashape] (4^k rows of four entries, each -1 or a vertex), which keeps all NumPy
+     indexing in range (no IndexError); the model's loops never Raise (cascade_noraise, ..), OutOfFuel of the model is excluded
+     by the hypothesis that connect_coding_graph returns Ok / Raise.
+   Fuel: the proofs need S (S (length mask)) < fuel (the model's fuels are S (length mask) for the trimming rounds and
+   S (4^k) for the repair, the reachability loop and the cascade); 4 * length mask + 8 <= fuel implies it.
 *)
 
 Local Open Scope list_scope.
@@ -782,14 +757,20 @@ Section Coding.
     (SSeq (SIf (EB1 BAll (ECmp CEq (EVar "reached"%string) (EVar "useful"%string))) SBreak SSkip)
     (SAssign (TVar "useful"%string) (EVar "reached"%string))))).
 
-  Definition t1_body : stmt :=
-    (SSeq (SAssign (TVar "vertices"%string) (ECall "obtain_vertices"%string [(EVar "accessor"%string)]))
-    (SSeq (SIf (ECmp CEq (EB1 BLen (EVar "vertices"%string)) (EInt (0))) (SRaise ValueError) SSkip)
+  Definition t1_rest2 : stmt :=
+    (SSeq (SIf (ECmp CEq (EB1 BLen (EVar "useless_vertices"%string)) (EInt (0))) SBreak SSkip)
+    (SFor (TVar "useless_vertex"%string) (EVar "useless_vertices"%string) useless_body)).
+
+  Definition t1_rest1 : stmt :=
     (SSeq (SAssign (TVar "useful"%string) (ECmp CGt (EB1 BNpSumAxis1 (ECmp CGe (EVar "accessor"%string) (EInt (0)))) (EInt (1))))
     (SSeq (SWhileB (EBoolLit true) reach_body)
     (SSeq (SAssign (TVar "useless_vertices"%string) (ECompIf (EVar "vertex_index"%string) "vertex_index"%string (EVar "vertices"%string) (ENot (EIndex (EVar "useful"%string) (EVar "vertex_index"%string)))))
-    (SSeq (SIf (ECmp CEq (EB1 BLen (EVar "useless_vertices"%string)) (EInt (0))) SBreak SSkip)
-    (SFor (TVar "useless_vertex"%string) (EVar "useless_vertices"%string) useless_body))))))).
+    t1_rest2))).
+
+  Definition t1_body : stmt :=
+    (SSeq (SAssign (TVar "vertices"%string) (ECall "obtain_vertices"%string [(EVar "accessor"%string)]))
+    (SSeq (SIf (ECmp CEq (EB1 BLen (EVar "vertices"%string)) (EInt (0))) (SRaise ValueError) SSkip)
+    t1_rest1)).
 
   Definition final_tail : stmt :=
     (SSeq (SIf (ECmp CEq (EVar "threshold"%string) (EInt (1))) (SWhileB (EBoolLit true) t1_body) SSkip)
@@ -1028,11 +1009,6 @@ Section Coding.
                    if (out_degree (get_row acc' f) <? out_degree (get_row acc f)) && (out_degree (get_row acc' f) =? 0)
                    then (acc', np ++ map (fun i => (i, f)) (obtain_formers f k)) else (acc', np)) by reflexivity.
       rewrite EC.
-      assert (ET : (t0 <~ (if out_degree (get_row acc' f) <? out_degree (get_row acc f)
-                           then Ret (VBool (out_degree (get_row acc' f) =? 0))
-                           else Ret (VBool (out_degree (get_row acc' f) <? out_degree (get_row acc f))));; truthy t0)
-                   = Ret ((out_degree (get_row acc' f) <? out_degree (get_row acc f)) && (out_degree (get_row acc' f) =? 0))).
-      { destruct (out_degree (get_row acc' f) <? out_degree (get_row acc f)); reflexivity. }
       match goal with |- context [lift ?X (fun v => lift (truthy v) _)] =>
         replace (lift X) with (@lift val (if out_degree (get_row acc' f) <? out_degree (get_row acc f)
                            then Ret (VBool (out_degree (get_row acc' f) =? 0))
@@ -1282,6 +1258,275 @@ Section Coding.
       exists en'. split; [exact EW|split; [exact HU'|split; [exact HL'|frame_solve]]].
   Qed.
 
+  (* ---- the threshold-1 round: values --------------------------------------------------------------------------------------------- *)
+  Lemma ge0_row_vals row : cmp_vals CGe (varr row) (VInt 0) = Ret (VArr (map VBool (map ge0 row))).
+  Proof.
+    unfold varr. cbn [cmp_vals]. rewrite map_map. rewrite (map_res_map VInt _ (fun x => VBool (ge0 x))); reflexivity.
+  Qed.
+
+  Lemma stage_ge0 acc : acc <> [] ->
+    cmp_top CGe (varr2 acc) (VInt 0) = Ret (VArr (map (fun row => VArr (map VBool (map ge0 row))) acc)).
+  Proof.
+    intro HN. destruct acc as [|r acc]; [contradiction|]. unfold varr2. cbn [map]. unfold varr at 1. cbn [cmp_top].
+    change (VArr (map VInt r) :: map varr acc) with (map varr (r :: acc)).
+    rewrite (map_res_map varr _ (fun row => VArr (map VBool (map ge0 row)))); [reflexivity|].
+    intro row. unfold varr at 1. apply ge0_row_vals.
+  Qed.
+
+  Lemma sum_ge0 : forall row, sumZ (map (fun b : bool => if b then 1 else 0) (map ge0 row)) = out_degree row.
+  Proof.
+    unfold out_degree. induction row as [|x row IH]; [reflexivity|]. cbn [map live_entries filter]. rewrite sumZ_cons.
+    fold (live_entries row). rewrite IH. unfold ge0. destruct (0 <=? x); cbn [length]; lia.
+  Qed.
+
+  Lemma stage_deg acc :
+    builtin1_val BNpSumAxis1 (VArr (map (fun row => VArr (map VBool (map ge0 row))) acc)) = Ret (VArr (map (fun row => VInt (out_degree row)) acc)).
+  Proof.
+    cbn [builtin1_val].
+    rewrite (map_res_map (fun row => VArr (map VBool (map ge0 row))) _ (fun row => VInt (out_degree row))); [reflexivity|].
+    intro row. rewrite (map_res_map VBool _ (fun b : bool => if b then 1 else 0)) by reflexivity. cbn [rbind]. rewrite sum_ge0. reflexivity.
+  Qed.
+
+  Lemma stage_gt1 acc :
+    cmp_top CGt (VArr (map (fun row => VInt (out_degree row)) acc)) (VInt 1) = Ret (VArr (map VBool (map (fun r => 1 <? out_degree r) acc))).
+  Proof.
+    assert (E : cmp_top CGt (VArr (map (fun row => VInt (out_degree row)) acc)) (VInt 1)
+                = cmp_vals CGt (VArr (map (fun row => VInt (out_degree row)) acc)) (VInt 1)) by (destruct acc; reflexivity).
+    rewrite E. cbn [cmp_vals]. rewrite map_map.
+    rewrite (map_res_map (fun row => VInt (out_degree row)) _ (fun row => VBool (1 <? out_degree row))); reflexivity.
+  Qed.
+
+  Fixpoint compif_go (en : env) (bd : expr) (x : string) (cd : expr) (l : list val) : res (list val) :=
+    match l with
+    | [] => Ret []
+    | v :: tl => c <~ eval ce (update x v en) cd ;; b <~ truthy c ;;
+                 if b then w <~ eval ce (update x v en) bd ;; r <~ compif_go en bd x cd tl ;; Ret (w :: r) else compif_go en bd x cd tl
+    end.
+
+  Lemma eval_compif en bd x it cd :
+    eval ce en (ECompIf bd x it cd) = (src <~ eval ce en it ;; l <~ items src ;; vs <~ compif_go en bd x cd l ;; Ret (VList vs)).
+  Proof.
+    cbn [eval]. destruct (eval ce en it) as [src| | |]; cbn [rbind]; try reflexivity.
+    destruct (items src) as [l| | |]; cbn [rbind]; try reflexivity. f_equal.
+    induction l as [|v tl IH]; [reflexivity|]. cbn [compif_go]. rewrite <- IH. reflexivity.
+  Qed.
+
+  Lemma eval_useless en listed U : lookup "vertices" en = Ret (varr listed) -> lookup "useful" en = Ret (VArr (map VBool U)) ->
+    Forall (fun v => 0 <= v < Z.of_nat (length U)) listed ->
+    eval ce en (ECompIf (EVar "vertex_index"%string) "vertex_index"%string (EVar "vertices"%string) (ENot (EIndex (EVar "useful"%string) (EVar "vertex_index"%string))))
+    = Ret (VList (map VInt (filter (fun v => negb (uget U v)) listed))).
+  Proof.
+    intros HV HU HR. rewrite eval_compif. cbn [eval]. rewrite HV. unfold varr at 1. cbn [rbind items].
+    assert (G : compif_go en (EVar "vertex_index"%string) "vertex_index"%string (ENot (EIndex (EVar "useful"%string) (EVar "vertex_index"%string))) (map VInt listed)
+                = Ret (map VInt (filter (fun v => negb (uget U v)) listed))).
+    { clear HV. induction listed as [|v ls IH]; [reflexivity|]. inversion HR as [|? ? Hv HR']; subst.
+      cbn [map compif_go eval filter]. lk. rewrite HU. cbn [rbind]. rewrite (index_bool U v Hv). cbn [rbind truthy].
+      rewrite (IH HR'). destruct (uget U v); reflexivity. }
+    rewrite G. reflexivity.
+  Qed.
+
+  Lemma listed_range : forall (acc : accessor) s v, In v (listed_from acc s) -> s <= v < s + Z.of_nat (length acc).
+  Proof.
+    induction acc as [|row acc IH]; intros s v Hin; cbn [listed_from] in Hin; [contradiction|].
+    cbn [length]. destruct (row_listed row); [destruct Hin as [<-|Hin]; [lia|]|]; apply IH in Hin; lia.
+  Qed.
+
+  (* the model's loops never raise *)
+  Lemma cascade_noraise : forall f acc pairs e, cascade f k acc pairs <> Raise e.
+  Proof.
+    induction f as [|f IH]; intros acc pairs e; destruct pairs as [|p pairs]; cbn [cascade]; try discriminate.
+    destruct (fold_left (cascade_pair k) (p :: pairs) (acc, [])) as [a np]. apply IH.
+  Qed.
+
+  Lemma remove_vertices_noraise : forall us acc e, remove_vertices k acc us <> Raise e.
+  Proof.
+    induction us as [|u us IH]; intros acc e; cbn [remove_vertices]; [discriminate|]. unfold remove_vertex.
+    pose proof (cascade_noraise (S (length acc)) (set_nth acc (Z.to_nat u) empty_row) (map (fun i => (i, u)) (obtain_formers u k))) as HC.
+    destruct (cascade (S (length acc)) k (set_nth acc (Z.to_nat u) empty_row) (map (fun i => (i, u)) (obtain_formers u k))) as [a|e'|];
+      cbn [bind]; [apply IH| |discriminate]. exfalso. apply (HC e'). reflexivity.
+  Qed.
+
+  Lemma useful_fix_noraise : forall f acc listed U e, useful_fix f acc listed U <> Raise e.
+  Proof.
+    induction f as [|f IH]; intros acc listed U e; cbn [useful_fix]; [discriminate|].
+    destruct (list_bool_eqb (useful_step acc listed U) U); [discriminate|apply IH].
+  Qed.
+
+  (* ---- the threshold-1 repair = Graph.threshold1_fuel ------------------------------------------------------------------------------ *)
+  Definition t1_vars : list string :=
+    ["vertices"; "useful"; "vertex_index"; "latter_indices"; "reached"; "useless_vertices"; "useless_vertex"; "former_index";
+     "latter_index"; "previous"; "current"; "accessor"; "new_pairs"; "pairs"].
+
+  (* vertices = obtain_vertices(accessor); if len(vertices) == 0: raise *)
+  Lemma t1_pre acc en : lookup "accessor" en = Ret (varr2 acc) ->
+    exec ce fuel t1_body en =
+    match obtain_vertices acc with
+    | [] => OExn ValueError
+    | _ => exec ce fuel t1_rest1 (update "vertices" (varr (obtain_vertices acc)) en)
+    end.
+  Proof.
+    intro HA. unfold t1_body.
+    rewrite exec_seq, exec_assign. cbn [eval]. rewrite HA. cbn [rbind]. rewrite ce_vert. cbn [lift assign seq].
+    rewrite exec_seq, exec_if. cbn [eval]. lk. unfold varr at 1. ev. cbn [val_eqb]. rewrite map_length.
+    destruct (obtain_vertices acc) as [|v0 ls].
+    - reflexivity.
+    - destruct (Z.of_nat (length (v0 :: ls)) =? 0) eqn:E0; [cbn [length] in E0; lia|]. cbn [lift truthy]. rewrite exec_skip. reflexivity.
+  Qed.
+
+  (* useful = ..; the reachability loop; useless_vertices = [..] *)
+  Lemma t1_mid acc listed U en0 : (S (Z.to_nat (pow4 k)) < fuel)%nat -> ashape acc -> Forall (fun v => 0 <= v < pow4 k) listed ->
+    lookup "accessor" en0 = Ret (varr2 acc) -> lookup "vertices" en0 = Ret (varr listed) ->
+    useful_fix (S (length acc)) acc listed (map (fun r => 1 <? out_degree r) acc) = Ok U ->
+    exists en3, exec ce fuel t1_rest1 en0 = exec ce fuel t1_rest2 en3
+      /\ lookup "useless_vertices" en3 = Ret (VList (map VInt (filter (fun v => negb (nth (Z.to_nat v) U false)) listed)))
+      /\ frame ["useful"; "vertex_index"; "latter_indices"; "reached"; "useless_vertices"] en0 en3.
+  Proof.
+    intros Hfuel HS HLR HA HV EU. pose proof (pow4_pos k) as Hp. pose proof HS as [HLen _].
+    assert (HNE : acc <> []) by (intro E; rewrite E in HLen; cbn [length] in HLen; lia).
+    unfold t1_rest1.
+    rewrite exec_seq, exec_assign. cbn [eval]. rewrite HA. cbn [rbind].
+    rewrite (stage_ge0 acc HNE). cbn [rbind]. rewrite stage_deg. cbn [rbind]. rewrite stage_gt1. cbn [lift assign seq].
+    set (U0 := map (fun r => 1 <? out_degree r) acc) in *.
+    rewrite exec_seq, exec_while_b.
+    match goal with |- context [while_loop_b _ _ _ _ _ ?E] => set (en1 := E) end.
+    pose proof (reach_while acc listed HS HLR (S (length acc)) U0 fuel en1) as HRW. rewrite EU in HRW.
+    destruct HRW as (en2 & EW & HU2 & HLU2 & HF2); try (unfold en1; lk; first [assumption|reflexivity]).
+    { unfold U0. apply map_length. }
+    { lia. }
+    rewrite EW. cbn [seq].
+    assert (HV2 : lookup "vertices" en2 = Ret (varr listed)) by (fr HF2; unfold en1; lk; exact HV).
+    rewrite exec_seq, exec_assign.
+    rewrite (eval_useless en2 listed U HV2 HU2) by (rewrite HLU2, HLen, pow4_nat; exact HLR).
+    cbn [lift assign seq].
+    eexists. split; [reflexivity|]. split; [lk; reflexivity|]. unfold en1 in HF2. frame_solve.
+  Qed.
+
+  (* if len(useless_vertices) == 0: break; for useless_vertex in useless_vertices: .. *)
+  Lemma t1_post acc useless en3 : (S (Z.to_nat (pow4 k)) < fuel)%nat -> ashape acc -> Forall (fun u => 0 <= u < pow4 k) useless ->
+    lookup "accessor" en3 = Ret (varr2 acc) -> lookup "observed_length" en3 = Ret (VInt (Z.of_nat k)) ->
+    lookup "useless_vertices" en3 = Ret (VList (map VInt useless)) ->
+    match useless with
+    | [] => exec ce fuel t1_rest2 en3 = OBreak en3
+    | _ => match remove_vertices k acc useless with
+           | Ok acc' => exists en4, exec ce fuel t1_rest2 en3 = ONormal en4 /\ lookup "accessor" en4 = Ret (varr2 acc') /\ ashape acc'
+                          /\ frame ["useless_vertex"; "former_index"; "latter_index"; "previous"; "current"; "accessor"; "new_pairs"; "pairs"] en3 en4
+           | _ => True
+           end
+    end.
+  Proof.
+    intros Hfuel HS HUR HA HK HU.
+    assert (EP : exec ce fuel t1_rest2 en3 =
+                 match useless with [] => OBreak en3 | _ => for_loop ce fuel (TVar "useless_vertex") useless_body (map VInt useless) en3 end).
+    { unfold t1_rest2. rewrite exec_seq, exec_if. cbn [eval]. rewrite HU. ev. cbn [val_eqb]. rewrite map_length.
+      destruct useless as [|u0 us]; [reflexivity|].
+      destruct (Z.of_nat (length (u0 :: us)) =? 0) eqn:E1; [cbn [length] in E1; lia|]. cbn [lift truthy]. rewrite exec_skip. cbn [seq].
+      rewrite exec_for. cbn [eval]. rewrite HU. reflexivity. }
+    rewrite EP. destruct useless as [|u0 us]; [reflexivity|].
+    pose proof (useless_loop Hfuel (u0 :: us) acc en3 HS HUR HA HK) as HUL.
+    destruct (remove_vertices k acc (u0 :: us)) as [acc'| |]; try exact I. exact HUL.
+  Qed.
+
+  Lemma t1_while : (S (Z.to_nat (pow4 k)) < fuel)%nat -> forall f acc n en, ashape acc ->
+    lookup "accessor" en = Ret (varr2 acc) -> lookup "observed_length" en = Ret (VInt (Z.of_nat k)) -> (f <= n)%nat ->
+    match threshold1_fuel f k acc with
+    | Ok (V, acc') => exists en', while_loop_b ce fuel (EBoolLit true) t1_body n en = ONormal en'
+                        /\ lookup "vertices" en' = Ret (varr V) /\ lookup "accessor" en' = Ret (varr2 acc') /\ frame t1_vars en en'
+    | Raise e => while_loop_b ce fuel (EBoolLit true) t1_body n en = OExn e
+    | OutOfFuel => True
+    end.
+  Proof.
+    intro Hfuel. pose proof (pow4_pos k) as Hp.
+    induction f as [|f IH]; intros acc n en HS HA HK Hn; cbn [threshold1_fuel]; [exact I|].
+    destruct n as [|n]; [lia|]. rewrite while_loop_b_S. cbn [eval lift truthy].
+    pose proof HS as [HLen _]. rewrite (t1_pre acc en HA).
+    remember (obtain_vertices acc) as listed eqn:EL.
+    assert (HLR : Forall (fun v => 0 <= v < pow4 k) listed).
+    { apply Forall_forall. intros v Hv. rewrite EL in Hv. unfold obtain_vertices in Hv. apply listed_range in Hv. lia. }
+    destruct listed as [|v0 ls]; [reflexivity|]. set (listed := v0 :: ls) in *.
+    set (en0 := update "vertices" (varr listed) en).
+    destruct (useful_fix (S (length acc)) acc listed (map (fun r => 1 <? out_degree r) acc)) as [U|e|] eqn:EU; cbn [bind];
+      [|exfalso; exact (useful_fix_noraise _ _ _ _ _ EU)|exact I].
+    destruct (t1_mid acc listed U en0 Hfuel HS HLR) as (en3 & E3 & HU3 & HF3); try (unfold en0; lk; first [assumption|reflexivity]).
+    rewrite E3.
+    remember (filter (fun v => negb (nth (Z.to_nat v) U false)) listed) as useless eqn:EUs.
+    assert (HUR : Forall (fun u => 0 <= u < pow4 k) useless).
+    { apply Forall_forall. intros u Hu. rewrite EUs in Hu. apply filter_In in Hu. destruct Hu as [Hu _].
+      rewrite Forall_forall in HLR. apply HLR, Hu. }
+    assert (HA3 : lookup "accessor" en3 = Ret (varr2 acc)) by (fr HF3; unfold en0; lk; exact HA).
+    assert (HK3 : lookup "observed_length" en3 = Ret (VInt (Z.of_nat k))) by (fr HF3; unfold en0; lk; exact HK).
+    assert (HV3 : lookup "vertices" en3 = Ret (varr listed)) by (fr HF3; unfold en0; lk; reflexivity).
+    pose proof (t1_post acc useless en3 Hfuel HS HUR HA3 HK3 HU3) as HP3.
+    destruct useless as [|u0 us].
+    { rewrite HP3. cbn [loop_seq]. exists en3. split; [reflexivity|split; [exact HV3|split; [exact HA3|]]].
+      unfold en0, t1_vars in *. frame_solve. }
+    destruct (remove_vertices k acc (u0 :: us)) as [acc'|e|] eqn:ER; cbn [bind];
+      [|exfalso; exact (remove_vertices_noraise _ _ _ ER)|exact I].
+    destruct HP3 as (en4 & E4 & HA4 & HS4 & HF4). rewrite E4. cbn [loop_seq].
+    specialize (IH acc' n en4 HS4 HA4).
+    destruct (threshold1_fuel f k acc') as [[V acc'']|e|]; [|apply IH; [fr HF4; exact HK3|lia]|exact I].
+    destruct IH as (en' & EW' & HV' & HA' & HF'); [fr HF4; exact HK3|lia|].
+    exists en'. split; [exact EW'|split; [exact HV'|split; [exact HA'|]]].
+    unfold en0, t1_vars in *. frame_solve.
+  Qed.
+
+  (* ---- threshold 1: the end of the function ------------------------------------------------------------------------------------------ *)
+  Lemma tail_t1 en b (m : list Z) : t = 1 -> (S (Z.to_nat (pow4 k)) < fuel)%nat -> pinv en b m ->
+    match threshold1_fuel (S (length (induced k m))) k (induced k m) with
+    | Ok (V, acc') => exec ce fuel final_tail en = OReturn (VTuple [varr V; varr2 acc'])
+    | Raise e => exec ce fuel final_tail en = OExn e
+    | OutOfFuel => True
+    end.
+  Proof.
+    intros Ht Hfuel (HV & HA & HK & HT & HB).
+    assert (HLen : length (induced k m) = Z.to_nat (pow4 k)) by apply induced_shape.
+    assert (EP : exec ce fuel final_tail en =
+                 seq (while_loop_b ce fuel (EBoolLit true) t1_body fuel en)
+                     (exec ce fuel (SSeq (SIf (EVar "verbose"%string) SSkip SSkip) (SReturn (ETuple [(EVar "vertices"%string); (EVar "accessor"%string)]))))).
+    { unfold final_tail. rewrite exec_seq, exec_if. cbn [eval]. rewrite HT. ev. cbn [val_eqb].
+      destruct (t =? 1) eqn:E1; [|lia]. cbn [lift truthy]. rewrite exec_while_b. reflexivity. }
+    rewrite EP.
+    pose proof (t1_while Hfuel (S (length (induced k m))) (induced k m) fuel en (induced_ashape m) HA HK ltac:(lia)) as HW.
+    destruct (threshold1_fuel (S (length (induced k m))) k (induced k m)) as [[V acc']|e|]; [|rewrite HW; reflexivity|exact I].
+    destruct HW as (en' & -> & HV' & HA' & HF'). cbn [seq].
+    rewrite exec_seq, exec_if. cbn [eval]. unfold t1_vars in HF'. fr HF'. rewrite HB. cbn [lift truthy]. rewrite if_same, exec_skip. cbn [seq].
+    rewrite exec_return. cbn [eval]. rewrite HV', HA'. reflexivity.
+  Qed.
+
+  Lemma gen_t1 (mask : list Z) : Z.of_nat k < 400 -> length mask = Z.to_nat (pow4 k) -> Forall (fun x => 0 <= x <= 1) mask ->
+    t = 1 -> (S (S (length mask)) < fuel)%nat ->
+    match Graph.connect_coding_graph k mask t with
+    | Ok (V, acc) => run_fun ce fuel connect_coding_graph_def [VInt (Z.of_nat k); v_mask_int mask; VInt t; VBool vb]
+                     = Ret (coding_result k mask t V acc)
+    | Raise e => run_fun ce fuel connect_coding_graph_def [VInt (Z.of_nat k); v_mask_int mask; VInt t; VBool vb] = Exn e
+    | OutOfFuel => True
+    end.
+  Proof.
+    intros Hk HL H01 Ht Hf. assert (HL' : Z.of_nat (length mask) = pow4 k) by (rewrite HL; apply pow4_nat).
+    unfold run_fun. rewrite body_eq. cbn [params connect_coding_graph_def bind_params].
+    pose proof (prefix_ok final_tail mask Hk HL' H01 ltac:(lia)) as HP. unfold Graph.connect_coding_graph.
+    destruct (trim_fuel (S (length mask)) k t mask) as [m|e|] eqn:ET; cbn [bind]; [|rewrite HP; reflexivity|exact I].
+    destruct (0 <? sumZ m); [|rewrite HP; reflexivity].
+    destruct HP as (en' & -> & HPI & HLm & Hm01).
+    destruct (t =? 1) eqn:E1; [|lia].
+    pose proof (tail_t1 en' _ m Ht ltac:(lia) HPI) as HT1.
+    destruct (threshold1_fuel (S (length (induced k m))) k (induced k m)) as [[V acc']|e|]; [|rewrite HT1; reflexivity|exact I].
+    rewrite HT1. unfold coding_result. rewrite E1. reflexivity.
+  Qed.
+
+  Lemma gen_all (mask : list Z) : Z.of_nat k < 400 -> length mask = Z.to_nat (pow4 k) -> Forall (fun x => 0 <= x <= 1) mask ->
+    (S (S (length mask)) < fuel)%nat ->
+    match Graph.connect_coding_graph k mask t with
+    | Ok (V, acc) => run_fun ce fuel connect_coding_graph_def [VInt (Z.of_nat k); v_mask_int mask; VInt t; VBool vb]
+                     = Ret (coding_result k mask t V acc)
+    | Raise e => run_fun ce fuel connect_coding_graph_def [VInt (Z.of_nat k); v_mask_int mask; VInt t; VBool vb] = Exn e
+    | OutOfFuel => True
+    end.
+  Proof.
+    intros Hk HL H01 Hf. destruct (Z.eq_dec t 1) as [E|N].
+    - apply gen_t1; assumption.
+    - apply gen_t2; try assumption. lia.
+  Qed.
+
 (* ==== END OF SECTION ==== *)
 End Coding.
 
@@ -1308,5 +1553,32 @@ Proof.
   pose proof (gen_t2 ce fuel k t verbose Hlat mask Hk HL H01 ltac:(lia) ltac:(lia)) as H. rewrite HM in H. exact H.
 Qed.
 
+Theorem connect_coding_graph_gen_ok : forall ce fuel k mask t verbose V acc,
+  coding_callees_ok ce k -> (1 <= k)%nat -> Z.of_nat k < 400 -> length mask = Z.to_nat (pow4 k) ->
+  Forall (fun x => 0 <= x <= 1) mask -> 1 <= t ->
+  Graph.connect_coding_graph k mask t = Ok (V, acc) ->
+  (4 * length mask + 8 <= fuel)%nat ->
+  run_fun ce fuel connect_coding_graph_def [VInt (Z.of_nat k); v_mask_int mask; VInt t; VBool verbose]
+  = Ret (coding_result k mask t V acc).
+Proof.
+  intros ce fuel k mask t verbose V acc (Hlat & Hform & Hvert) Hk1 Hk HL H01 _ HM Hf.
+  pose proof (gen_all ce fuel k t verbose Hlat Hk1 (fun c => Hform c Hk1) Hvert mask Hk HL H01 ltac:(lia)) as H.
+  rewrite HM in H. exact H.
+Qed.
+
+Theorem connect_coding_graph_gen_raise : forall ce fuel k mask t verbose e,
+  coding_callees_ok ce k -> (1 <= k)%nat -> Z.of_nat k < 400 -> length mask = Z.to_nat (pow4 k) ->
+  Forall (fun x => 0 <= x <= 1) mask -> 1 <= t ->
+  Graph.connect_coding_graph k mask t = Raise e ->
+  (4 * length mask + 8 <= fuel)%nat ->
+  run_fun ce fuel connect_coding_graph_def [VInt (Z.of_nat k); v_mask_int mask; VInt t; VBool verbose] = Exn e.
+Proof.
+  intros ce fuel k mask t verbose e (Hlat & Hform & Hvert) Hk1 Hk HL H01 _ HM Hf.
+  pose proof (gen_all ce fuel k t verbose Hlat Hk1 (fun c => Hform c Hk1) Hvert mask Hk HL H01 ltac:(lia)) as H.
+  rewrite HM in H. exact H.
+Qed.
+
 Print Assumptions connect_coding_graph_gen_ok_t2.
 Print Assumptions connect_coding_graph_gen_raise_t2.
+Print Assumptions connect_coding_graph_gen_ok.
+Print Assumptions connect_coding_graph_gen_raise.
